@@ -96,7 +96,7 @@ def cases(ctx):
     rng = ctx.rng
     jobs = []
     meta = []
-    nmsg = ctx.n(8, 40)
+    nmsg = ctx.n(8, 14)
     made = 0
     tries = 0
     clamp = []
@@ -110,13 +110,13 @@ def cases(ctx):
         else:
             am = g.gen_query_like(rng, origin, rng.choice(["medium", "large", "large"]), opcode=rng.choice([0, 0, 0, 4, 2]))
         full = g.run_render(am, origin, 65535, 0, 0, 0)
-        if isinstance(full, Err) or len(full) < 560 or len(full) > (1300 if ctx.quick else 4096):
+        if isinstance(full, Err) or len(full) < 560 or len(full) > (1300 if ctx.quick else 2600):
             continue
         made += 1
         ctx.count("msgsize:%d00" % (len(full) // 100))
         for am2, pad in variants(rng, am, ctx.quick):
             full2 = g.run_render(am2, origin, 65535, 0, 0, pad)
-            top = (len(full2) if not isinstance(full2, Err) else len(full)) + 3
+            top = max((len(full2) if not isinstance(full2, Err) else len(full)) + 3, 530)
             for prefer in ((1, 0) if not ctx.quick else (rng.choice([1, 1, 0]),)):
                 jobs.append((am2, origin, 512, top - 512, 0, prefer, pad))
                 meta.append((am2, origin, top, prefer, pad))
@@ -126,7 +126,7 @@ def cases(ctx):
     # messages whose record sets all have owners that appear nowhere earlier, signed with a key named
     # at or below the owner of a record set that the sweep cuts: a compression entry that survived the
     # rollback of that record set would be used by the TSIG owner name
-    for i in range(ctx.n(3, 10)):
+    for i in range(ctx.n(3, 5)):
         zones = [[b"zone%d" % j, b"test", b""] for j in range(3)]
         secs = [[[[b"q"] + zones[0], g.IN, g.SOA, 0, None, 0, []]], [], [], []]
         k = 0
@@ -174,7 +174,7 @@ def cases(ctx):
             _cache[case_key(normalize(case))] = [rle_at(rle, l) for l in pts]
             ctx.count("runs", len(rle))
             yield "points:" + ("trunc" if prefer else "raise"), case
-            for _ in range(ctx.n(1, 2)):
+            for _ in range(ctx.n(1, 1)):
                 lo = rng.randrange(512, max(513, top - CHUNK))
                 n = min(CHUNK, top - lo)
                 case = [5, am2, origin, lo, n, 0, prefer, pad]
@@ -187,12 +187,12 @@ def cases(ctx):
     am = [1, 0, [[[[b"a", b""], 1, 1, 0, None, 0, []]], [], [], []], [0, 1232, [[65001, bytes(600)]]], None]
     yield "reserve-too-large", [1, am, None, 512, 0, 1, 0]
     # low-level Renderer sequences: TooBig caught by the caller, then more records with the same owner
-    for i in range(ctx.n(150, 1500)):
+    for i in range(ctx.n(150, 600)):
         origin = None if rng.random() < 0.8 else [b"o", b"example", b""]
         mid, flags, ms, ops = g.gen_rseq(rng, origin)
         yield "rseq", [7, origin, mid, flags, ms, ops]
     # signed sweeps (oracle only)
-    for i in range(ctx.n(2, 12)):
+    for i in range(ctx.n(2, 5)):
         am = g.gen_query_like(rng, None, "medium", opcode=0, with_tsig=False)
         if am[3] is None:
             am[3] = [0, 1232, []]
